@@ -9,7 +9,7 @@ PKG = {"vegeta": "lib", "vegeta_test": "lib", "main": ".", "plot": "lib/plot", "
        "prom": "lib/prom", "prom_test": "lib/prom", "resolver": "internal/resolver"}
 
 def sh(cmd, cwd=WT, timeout=900):
-    r = subprocess.run(cmd, cwd=cwd, env=ENV, shell=True, stdout=subprocess.PIPE, stderr=subprocess.STDOUT, text=True, timeout=timeout)
+    r = subprocess.run(cmd, cwd=cwd, env=ENV, shell=True, stdout=subprocess.PIPE, stderr=subprocess.STDOUT, text=True, errors="replace", timeout=timeout)
     return r.returncode, r.stdout
 
 def reset():
